@@ -43,7 +43,7 @@ ASSUMPTIONS = [
     "and the discretisation error do not depend on the seed; Kane-Mele is used with an exchange field, CuMnAs with the "
     "Neel vector along (1,1,1), because the default models have Kramers cones / Dirac points)",
     "NLDrude_Fermider2 (f'' form) needs about twice the linear grid density of the other forms; quick runs it on the 2D "
-    "zoo models at 2400 K only, thorough adds 3D",
+    "zoo models at 2400 K only, thorough adds the 3D models at 4640 K; it is not run at 1200 K / 600 K",
     "k.p: one 1-band model (anisotropic mass + tilt + cubic warping, analytic derivatives) in thorough only (no FFT: "
     "30 ms per k-point); Fermi levels are limited to those whose occupied region (+8.5 kT) stays inside the k-box, "
     "otherwise the two forms differ by boundary terms; multi-band k.p models are not covered",
@@ -93,8 +93,8 @@ GRIDS = {
     (3, 4640): {"easy": (8, 12), "NLDrude": (12, 16), "NLDrude2": (16, 24)},
     (3, 2900): {"easy": (12, 16), "NLDrude": (16, 24), "NLDrude2": (24, 32)},
     (2, 2400): {"easy": (24, 36), "NLDrude": (36, 54), "NLDrude2": (48, 72)},
-    (2, 1200): {"easy": (48, 72), "NLDrude": (48, 72), "NLDrude2": (96, 144)},
-    (2, 600): {"easy": (96, 144), "NLDrude": (96, 144), "NLDrude2": (192, 288)},
+    (2, 1200): {"easy": (48, 72), "NLDrude": (48, 72)},
+    (2, 600): {"easy": (96, 144), "NLDrude": (96, 144)},
 }
 CHIRAL_GRIDS = {4640: {"easy": (12, 16), "NLDrude": (12, 16), "NLDrude2": (20, 28)},
                 2900: {"easy": (16, 24), "NLDrude": (16, 24)}}
@@ -141,8 +141,8 @@ def plan(tier):
             if second and m != "zoo2d_2":
                 continue
             for p in ALLP:
-                if p == "NLDrude2" and (T == 600 or second):
-                    continue
+                if p == "NLDrude2" and T != 2400:
+                    continue        # the f'' form converges too slowly at low T (0.04 of the scale left at 144^2, 1200 K)
                 add(m, p, T, GRIDS[(2, T)])
         for m, ps in BUNDLED_2D:
             if second and m != "KaneMele_odd_Z":
